@@ -11,8 +11,8 @@ import struct
 # --- string alphabet (DESIGN C17/C18): one symbol per lexer / JSON escaping branch ---------------
 STR_SYMS = ["a", '"', "'", "\\", "{", "}", "é", "\n"]
 SYM_CLASS = {"a": "plain", '"': "dquote", "'": "squote", "\\": "backslash", "{": "lbrace", "}": "rbrace", "é": "nonascii", "\n": "newline",
-             "\0": "nul", "\r": "cr", "日": "bmp", "😀": "astral", "/": "slash", "\x7f": "del"}
-EXTRA_SYMS = ["\0", "\r", "日", "😀", "/", "\x7f"]  # thorough only, length 1 and in pairs with `a`
+             "\0": "nul", "\r": "cr", "日": "bmp", "😀": "astral", "/": "slash", "\x7f": "del", "\u200b": "zero-width", "\u0301": "combining", "1": "digit"}
+EXTRA_SYMS = ["\0", "\r", "日", "😀", "/", "\x7f", "\u200b", "\u0301"]  # length 1 and in pairs with `a` (quick: length 1 and `a?a`)
 
 
 def erg_str(s):
@@ -267,10 +267,12 @@ def space(tier):
     """returns (leaves, trees of depth 1..3): every tree's sub-trees are in the space too"""
     quick = tier == "quick"
     strs = strings(2 if quick else 3)
+    # characters a generic "debug" quoting would write in a form that is not JSON / not Python (\u{..}, \0 before a digit)
+    strs += [S(x) for x in EXTRA_SYMS] + [S("\0" + "1")]
     if not quick:
-        strs += [S(x) for x in EXTRA_SYMS] + [S("a" + x) for x in EXTRA_SYMS] + [S(x + "a") for x in EXTRA_SYMS]
+        strs += [S("a" + x) for x in EXTRA_SYMS] + [S(x + "a") for x in EXTRA_SYMS]
     # every symbol in an inner position (strings of length <= 2 only have edge positions)
-    strs += [S("a" + x + "a") for x in STR_SYMS + ([] if quick else EXTRA_SYMS) if S("a" + x + "a") not in strs]
+    strs += [S("a" + x + "a") for x in STR_SYMS + EXTRA_SYMS if S("a" + x + "a") not in strs]
     leaves = INTS + FLOATS + strs + SINGLETONS
     # one representative per leaf class for container elements
     rep = [I(0), I(-1), I(18446744073709551615), F("1.5"), F("-0.0"), S("a"), S('"'), S("\\"), S("é\n"), ("bool", True), ("bool", False), ("none",)]
